@@ -141,6 +141,19 @@ def rules(ctx, db):
                 ctx.ob("R2", "park:%s@%s" % (hit[0], db.root_fn(f).name), dominated_by_any(f, reads, bb, strict=False) is not None,
                        "a task parks in `%s` only after checking that the endpoint is not closed" % hit[0], f)
 
+    # an event concerns every waiter of its table: waker queues are drained, never popped one at a time
+    for f in db.fns.values():
+        if not f.id.startswith("compio_quic::"):
+            continue
+        for bb, t in f.calls():
+            if not call_matches(t, r"VecDeque::<.*>::(pop_front|pop_back|remove|swap_remove_back|swap_remove_front)$"):
+                continue
+            if not (t.get("ga") and t["ga"][0].endswith("task::wake::Waker")):
+                continue
+            ctx.ob("R3", "waker-queue-popped-one-at-a-time:" + db.root_fn(f).name, False,
+                   "a queue of parked wakers is woken as a whole (drain): one protocol event (e.g. one MAX_STREAMS frame) can "
+                   "serve several waiters, and waking only the first leaves the others stranded until the next event", f)
+
     # ---------------- R3 event dispatch
     ev = db.adts.get("quinn_proto::connection::Event") or db.adts.get("quinn_proto::Event")
     runs = [f for f in db.fns.values() if f.id.startswith("compio_quic::connection::") and "run" in f.id and calls(f, r"quinn_proto::connection::Connection::poll$")]
